@@ -153,32 +153,24 @@ ValuesOf(s) ==
       [] sh = "strpat" -> {[sh |-> sh, id |-> i, w |-> s[4]] : i \in Ids}
       [] OTHER -> {[sh |-> sh, id |-> i] : i \in Ids}
 
-Pick(S) == IF Mode = "walk" THEN {RandomElement(S)} ELSE S
+IsWalk  == Mode \in {"walk", "nodup"}       \* "nodup": a walk in which no keyword is given twice in one block
+Pick(S) == IF IsWalk THEN {RandomElement(S)} ELSE S
 
 AttrSlots(t)  == {s \in SlotsBy[t] : s[3] \in ScalarShapes \cup ListShapes}
 BlockSlots(t) == {s \in SlotsBy[t] : s[3] \in {"block", "blocklist"}}
 OtherSlots(t, shape) == {s \in SlotsBy[t] : s[3] = shape}
 
-\* Named deviation of the implementation (DESIGN.md section 8, finding 9): the first keyword of a
-\* SYMBOL block must be one of SymbolAttributes, and a bare word after QUERYMAP STYLE / an
-\* attribute-keyword value is glued to the next keyword.  The walk generator stays clear of
-\* them; the slot probes exercise them on purpose.
-\* (repaired in /repo by fix commits; the generator no longer avoids anything)
-FirstInSymbolOK(key) == TRUE
-WalkValueOK(s, v) == TRUE
-
 Attr ==
     /\ AttrSlots(Top.type) # {}
     /\ \E s \in Pick(AttrSlots(Top.type)) :
          \E v \in Pick(ValuesOf(s)), kc \in Pick(Cases) :
-            /\ (Mode = "walk" => FirstInSymbolOK(s[2]) /\ WalkValueOK(s, v))
+            /\ (Mode = "nodup" => ~HasKey(Top.d, s[2]))
             /\ Apply([a |-> "attr", key |-> s[2], kc |-> kc, val |-> v, post |-> <<>>])
     /\ UNCHANGED <<done, target>>
 
 Repeated ==
     /\ \E s \in Pick(OtherSlots(Top.type, "repeated") \cup {<<"", "", "", "">>}) :
          /\ s[1] # ""
-         /\ (Mode = "walk" => FirstInSymbolOK(s[2]))
          /\ \E i \in Pick(Ids), kc \in Pick(Cases) :
               Apply([a |-> "repeated", key |-> s[2], kc |-> kc, val |-> [sh |-> "str", id |-> i], post |-> <<>>])
     /\ UNCHANGED <<done, target>>
@@ -188,7 +180,7 @@ IdSeqs(n) == [1..n -> Ids]
 KV ==
     /\ \E s \in Pick(OtherSlots(Top.type, "kv") \cup {<<"", "", "", "">>}) :
          /\ s[1] # ""
-         /\ (Mode = "walk" => FirstInSymbolOK(s[2]))
+         /\ (Mode = "nodup" => ~HasKey(Top.d, s[2]))
          /\ \E n \in Pick(0..3), kc \in Pick(Cases) :
             \E ks \in Pick(IdSeqs(n)), vs \in Pick(IdSeqs(n)) :
               Apply([a |-> "kv", type |-> s[4], kc |-> kc,
@@ -198,12 +190,14 @@ KV ==
 
 Config ==
     /\ OtherSlots(Top.type, "config") # {}
+    /\ (Mode = "nodup" => ~HasKey(Top.d, "config"))
     /\ \E k \in Pick(Ids), v \in Pick(Ids), kc \in Pick(Cases) :
          Apply([a |-> "config", kc |-> kc, k |-> [sh |-> "cfgkey", id |-> k], v |-> [sh |-> "str", id |-> v], post |-> <<>>])
     /\ UNCHANGED <<done, target>>
 
 Projection ==
     /\ OtherSlots(Top.type, "projection") # {}
+    /\ (Mode = "nodup" => ~HasKey(Top.d, "projection"))
     /\ \E auto \in Pick(BOOLEAN), n \in Pick(1..3), kc \in Pick(Cases) :
         \E ids \in Pick(IdSeqs(n)) :
          Apply([a |-> "projection", kc |-> kc, auto |-> auto, cs |-> kc,
@@ -214,7 +208,7 @@ Points ==
     /\ OtherSlots(Top.type, "points") \cup OtherSlots(Top.type, "pointslist") # {}
     /\ \E s \in Pick({x \in SlotsBy[Top.type] : x[3] \in {"points", "pointslist"}}) :
         \E n \in Pick(1..3), kc \in Pick(Cases) :
-         /\ (Mode = "walk" => FirstInSymbolOK(s[2]))
+         /\ (Mode = "nodup" => ~HasKey(Top.d, s[2]))
          /\ \E ts \in Pick([1..(2 * n) -> {"int", "float"}]) :
               Apply([a |-> IF s[2] = "pattern" THEN "pattern" ELSE "points", kc |-> kc,
                      pairs |-> [i \in 1..n |-> <<Num(ts[2 * i - 1], 2 * i - 1), Num(ts[2 * i], 2 * i)>>],
@@ -225,7 +219,7 @@ Open ==
     /\ Len(stack) <= MaxDepth
     /\ BlockSlots(Top.type) # {}
     /\ \E s \in Pick(BlockSlots(Top.type)), kc \in Pick(Cases) :
-         /\ (Mode = "walk" => FirstInSymbolOK(s[4]))
+         /\ (Mode = "nodup" /\ s[4] \in Singletons => ~HasKey(Top.d, s[4]))
          \* an inline SYMBOL block inside STYLE/CLASS is stored under "symbols": finding 14; not generated
          /\ ~(s[2] = "symbol" /\ s[4] = "symbol")
          /\ LET newstack == Append(stack, [type |-> s[4], d |-> <<>>])
